@@ -63,8 +63,8 @@ func selftest(tier string) (killed, total int, notes []string) {
 				complain("%q form %d: reference end %d, generator end %d", t.src, j, rr.ends[j], f.end)
 			}
 			d := f.den(c)
-			if d == nil != rr.unspecified && len(t.forms) == 1 {
-				complain("%q: generator specified=%v, reference unspecified=%v", t.src, d != nil, rr.unspecified)
+			if d != nil && rr.unspecified {
+				complain("%q: the generator gives a denotation where the reference reader has none", t.src)
 			}
 			if d != nil && !rr.unspecified && d.String() != rr.forms[j].String() {
 				complain("%q form %d: reference %s, generator %s", t.src, j, rr.forms[j], d)
